@@ -235,7 +235,8 @@ pub struct HtlcSpec {
     /// value of the onion's forward_msat when it differs from what the HTLC really carries (0 = the HTLC amount)
     #[serde(default)]
     pub fwd_amt: u64,
-    /// "ok" (metadata record with inner TLV) | "absent" | "raw:<hex>" (metadata bytes verbatim)
+    /// "ok" (metadata record with inner TLV) | "absent" | "raw:<hex>" (metadata bytes verbatim) |
+    /// "swapped" (amount record before the invoice record) | "overlen" (last record's length overstated by one)
     #[serde(default = "ok")]
     pub meta: String,
     /// extra records (type, hex value) placed in the outer payload, sorted in by type
@@ -258,14 +259,20 @@ pub fn metadata_bytes(h: &HtlcSpec, invs: &[InvSpec], cache: &mut HashMap<InvSpe
         return Some(hex::decode(raw).unwrap_or_default());
     }
     let mut m = Vec::new();
+    let mut inv_rec = Vec::new();
     if h.inv > 0 {
         let spec = &invs[h.inv - 1];
         let bytes = cache
             .entry(spec.clone())
             .or_insert_with(|| invoice_bytes(spec))
             .clone();
-        tlv_record(33001, &bytes, &mut m);
+        tlv_record(33001, &bytes, &mut inv_rec);
     }
+    // "swapped": the amount record comes first, the invoice record after it
+    if h.meta != "swapped" {
+        m.extend_from_slice(&inv_rec);
+    }
+    let mut last_len_at: Option<usize> = if inv_rec.is_empty() { None } else { Some(3) };
     if h.decl_len != -1 {
         let v = if h.decl_len == -2 {
             tu64(h.decl)
@@ -278,7 +285,25 @@ pub fn metadata_bytes(h: &HtlcSpec, invs: &[InvSpec], cache: &mut HashMap<InvSpe
             }
             v
         };
+        last_len_at = Some(m.len() + 3);
         tlv_record(33003, &v, &mut m);
+    }
+    if h.meta == "swapped" {
+        last_len_at = if inv_rec.is_empty() { last_len_at } else { Some(m.len() + 3) };
+        m.extend_from_slice(&inv_rec);
+    }
+    // "overlen": the length field of the LAST record overstates what follows by one byte (the value bytes are intact):
+    // not a well-formed stream
+    if h.meta == "overlen" {
+        if let Some(at) = last_len_at {
+            // record types 33001/33003 are encoded in 3 bytes (fd + u16); the length follows as BigSize
+            if m[at] < 0xfc {
+                m[at] += 1;
+            } else if m[at] == 0xfd {
+                let n = u16::from_be_bytes([m[at + 1], m[at + 2]]).wrapping_add(1);
+                m[at + 1..at + 3].copy_from_slice(&n.to_be_bytes());
+            }
+        }
     }
     Some(m)
 }
